@@ -568,10 +568,48 @@ def r13_options_forwarded(ctx, rule):
         ctx.ok(rule, 'lib_guesser/grammar_io.py', 'all %d hand-overs of skip_brute / skip_case / base_structure_folder pass the option on by name' % n)
 
 
+def r14_saved_flags_verbatim(ctx, rule):
+    """What a new session writes into the rule_info section of the .sav is what the user asked for: rule_name, skip_brute and
+    skip_case are saved as str(<options>[<same key>]) (the name as it is).  load_save restores them verbatim (R9), so a value
+    "improved" on the way in is what every resumed run loads the grammar with.  (Seed C14-j saved `skip_brute and has_brute`
+    with has_brute computed from a grammar --skip_brute had already stripped of its Markov structure: every --skip_brute session
+    was saved as skip_brute = False and resumed with brute force back in.)"""
+    q = 'pcfg_guesser.py::create_save_config'
+    fn = ctx.fn(q)
+    ps = params(fn)
+    stores = stores_in(fn)
+    seen = {}
+    for c in calls_in(fn):
+        if isinstance(c.func, ast.Attribute) and c.func.attr == 'set' and len(c.args) == 3 and isinstance(const(c.args[1]), str):
+            seen.setdefault(const(c.args[1]), []).append(c)
+    bad = False
+    n = 0
+    for key in ('rule_name', 'skip_brute', 'skip_case'):
+        for c in seen.get(key, []):
+            n += 1
+            v = expand(fn, c.args[2], stores)
+            inner = v.args[0] if isinstance(v, ast.Call) and call_name(v) == 'str' and len(v.args) == 1 else v
+            okv = isinstance(inner, ast.Subscript) and isinstance(inner.value, ast.Name) and inner.value.id in ps and const(inner.slice) == key
+            if not okv:
+                names = {x.id for x in ast.walk(v) if isinstance(x, ast.Name)}
+                bad = True
+                if names & set(ps) and any(isinstance(x, ast.Subscript) and const(x.slice) == key for x in ast.walk(v)):
+                    ctx.bad(rule, q, 'saved %s = %s' % (key, U(v)[:70]),
+                            'the session file must record the option as given; the restored value is what the grammar is loaded with on '
+                            'every resume, so a value altered here changes the language of the resumed run', None, c, firm=True)
+                else:
+                    ctx.unk(rule, q, 'saved %s = %s is not understood' % (key, U(v)[:70]))
+        if key not in seen:
+            bad = True
+            ctx.bad(rule, q, 'option %s is not saved' % key, 'a resumed run must load the grammar with the options of the saved one', None, fn)
+    if ctx.floor(rule, q, n, 3, 'rule_info options written by create_save_config') and not bad:
+        ctx.ok(rule, q, 'rule_name, skip_brute and skip_case are saved as given')
+
+
 def rules(tier):
     return [('C14.R1', r1_rewind), ('C14.R2', r2_renormalisation), ('C14.R3', r3_skip_case),
             ('C14.R4', r4_restored_flags_live), ('C14.R5', lambda c, r: c08.r5_sav_keys(c, r, sections=('rule_info',), floor=4)), ('C14.R6', c01.r8_uniform_scale), ('C14.R7', r7_probabilities_immutable), ('C14.R8', r8_loader_stateless), ('C14.R9', c08.r11_restore_is_verbatim),
-            ('C14.R10', _seeding), ('C14.R11', r11_loaders_read_only), ('C14.R12', r12_options_not_rebound), ('C14.R13', r13_options_forwarded)]
+            ('C14.R10', _seeding), ('C14.R11', r11_loaders_read_only), ('C14.R12', r12_options_not_rebound), ('C14.R13', r13_options_forwarded), ('C14.R14', r14_saved_flags_verbatim)]
 
 
 META = {
